@@ -80,6 +80,79 @@ func ruleHolds(kind string, items [][]byte) bool {
 	return true
 }
 
+// chainKinds: the validators ElementValidationFunc chains for a set of mode flags, in the order of the mode bits.
+func chainKinds(fl string) []string {
+	var k []string
+	d, l := strings.Contains(fl, "d"), strings.Contains(fl, "l")
+	switch {
+	case d && l:
+		k = append(k, "lexnd")
+	case d:
+		k = append(k, "uniq")
+	case l:
+		k = append(k, "lex")
+	}
+	if strings.Contains(fl, "b") {
+		k = append(k, "one8")
+	}
+	if strings.Contains(fl, "w") {
+		k = append(k, "one32")
+	}
+
+	return k
+}
+
+// expectFeed states what validators answer when they are fed with elements beyond a refusal: every validator judges an
+// element against the elements IT accepted before; in a chain an element reaches a validator only when the validators
+// in front of it accepted it, and the first refusal is the answer.
+func expectFeed(kinds []string, items [][]byte) []string {
+	acc := make([][][]byte, len(kinds))
+	out := make([]string, len(items))
+	for i, x := range items {
+		out[i] = "-"
+		for j, kind := range kinds {
+			c := "-"
+			a := acc[j]
+			switch kind {
+			case "uniq":
+				for _, y := range a {
+					if bytes.Equal(x, y) {
+						c = "arr-unique"
+					}
+				}
+			case "lex", "lexnd":
+				if len(a) > 0 {
+					switch cmp := bytes.Compare(a[len(a)-1], x); {
+					case cmp > 0:
+						c = "arr-order"
+					case cmp == 0 && kind == "lexnd":
+						c = "arr-unique"
+					}
+				}
+			case "one8", "one32":
+				w := map[string]int{"one8": 1, "one32": 4}[kind]
+				if len(x) < w {
+					c = "invalid-bytes"
+				} else {
+					for _, y := range a {
+						if bytes.Equal(x[:w], y[:w]) {
+							c = "arr-type-unique"
+						}
+					}
+				}
+			}
+			if c != "-" {
+				out[i] = c
+
+				break
+			}
+			acc[j] = append(acc[j], x)
+		}
+	}
+
+	return out
+}
+
 func feedValidator(v serializer.ElementValidationFunc, items [][]byte) (answers []string, allOk bool) {
 	allOk = true
 	for i, it := range items {
@@ -155,6 +228,16 @@ func (x *sess) execX(f []string) string {
 		for i := range items {
 			if !bytes.Equal(items[i], keep[i]) {
 				x.fail("aliasing", fmt.Sprintf("validator %v changed element %d: %x -> %x", f[:2], i, keep[i], items[i]), "validator-mutated-element")
+			}
+		}
+		if f[1] != "onebad" {
+			kinds := []string{f[1]}
+			if f[0] == "evf" {
+				kinds = chainKinds(f[1])
+			}
+			if exp := expectFeed(kinds, keep); strings.Join(exp, " ") != strings.Join(answers, " ") {
+				x.fail("rules", fmt.Sprintf("validator %s %s fed with %x answered %v; judged against the elements each validator accepted before (a refusal records nothing): %v", f[0], f[1], keep, answers, exp),
+					"validator-feed:"+f[0])
 			}
 		}
 		want := false
@@ -481,7 +564,7 @@ func hexes(items [][]byte) string {
 var valKinds = []string{"uniq", "lex", "lexnd", "one8", "one32", "one8", "one32"}
 
 func genXCase(r *hx.Run, rng *hx.Rng, sub uint64) {
-	r.Case(sub)
+	rec.Start(r.Case(sub))
 	x := &sess{r: r}
 	for i, n := 0, rng.Range(2, 6); i < n; i++ {
 		switch k := rng.Intn(12); {
